@@ -26,10 +26,14 @@ SECOND_MENU = [("23", "rot_tiny", "left"), ("23", "rotpath", "left"), ("None", "
 THIRD_MENU = [("23", "rot_pm", "left"), ("None", "static_rot", "right"), ("223", "rotpath", "right")]
 
 
-def mk_sensor(pix, kind, hand, L, k=0):
+def mk_sensor(pix, kind, hand, L, k=0, between=None):
+    """between: callable run on the freshly created (static, unrotated) sensor BEFORE its path is built - a field
+    computation there must not leave anything behind that survives the later moves and rotations"""
     import magpylib as magpy
 
     s = magpy.Sensor(pixel=PIX[pix], handedness=hand, position=(3 + 0.7 * k, 2 - 0.4 * k, 1 + 0.3 * k))
+    if between is not None:
+        between(s)
     if kind == "static_id":
         if L > 1:
             pass  # static sensor: path length 1 whatever L is
@@ -134,8 +138,11 @@ def run_case(c):
     import magpylib as magpy
 
     sLs = c["sensL"] if isinstance(c["sensL"], list) else [c["sensL"]] * len(c["sensors"])
-    sens = [mk_sensor(p, kd, h, sLs[k], k) for k, (p, kd, h) in enumerate(c["sensors"])]
     sources = mk_sources(c["sources"], c["srcL"])
+    between = None
+    if c.get("precall"):   # history: evaluate with the still static sensor, then build its path, then evaluate again
+        between = lambda s: getattr(magpy, "get" + c["field"])(sources, s)  # noqa: E731
+    sens = [mk_sensor(p, kd, h, sLs[k], k, between) for k, (p, kd, h) in enumerate(c["sensors"])]
     agg, field, form = c["agg"], c["field"], c["form"]
     fn = getattr(magpy, "get" + field)
     try:
@@ -205,6 +212,11 @@ def enumerate_cases(tier):
 
     for c1 in cfgs:
         add([c1], AGGS, ("list", "method", "squeezed", "collection"))
+    n0 = len(cases)
+    for c1 in cfgs:
+        add([c1], [None, "mean"], ("list",))
+    for c in cases[n0:]:
+        c["precall"] = True
     for c1 in cfgs:
         for c2 in (SECOND_MENU if tier == "quick" else cfgs):
             add([c1, c2], AGGS if tier == "thorough" else [None, "mean", "max", "std"], ("list", "nested_collection"))
@@ -231,7 +243,7 @@ def run(tier, seed):
     sig = set()
     for c, r in zip(cases, res):
         s0 = c["sensors"][0]
-        sig.add((len(c["sensors"]), tuple(map(tuple, c["sensors"])), c["agg"], str(c["sensL"]), c["srcL"], c["sources"], c["form"]))
+        sig.add((len(c["sensors"]), bool(c.get("precall")), tuple(map(tuple, c["sensors"])), c["agg"], str(c["sensL"]), c["srcL"], c["sources"], c["form"]))
         if r is None:
             continue
         if r.startswith("HARNESS"):
@@ -239,7 +251,7 @@ def run(tier, seed):
             continue
         kinds = "+".join(sorted({k for _, k, _ in c["sensors"]}))
         hands = "+".join(sorted({h for _, _, h in c["sensors"]}))
-        viols.append({"key": f"C04|n={len(c['sensors'])}|kinds={kinds}|hand={hands}|agg={c['agg']}|form={c['form']}|{r.split(' ')[0]}",
+        viols.append({"key": f"C04|n={len(c['sensors'])}|kinds={kinds}|hand={hands}|agg={c['agg']}|form={c['form']}{'+precall' if c.get('precall') else ''}|{r.split(' ')[0]}",
                       "what": f"{c}: {r}", "case": c, "observed": r})
     kinds_reached = {k for c in cases for _, k, _ in c["sensors"]}
     cov = {
